@@ -113,7 +113,16 @@ pub fn hostile_entries(target: &Id, salt: u32, v6: bool) -> Vec<(Id, SocketAddr)
     let mut near = *target;
     near[19] ^= (salt % 7) as u8;
     let mut out = Vec::new();
-    match salt % 6 {
+    match salt % 7 {
+        6 => {
+            // one address under two (neighbouring) ids: a peer that re-joined under a new id
+            out.push((far, ghost(0)));
+            out.push((far2, ghost(0)));
+            out.push((near, ghost(1)));
+            let mut near2 = near;
+            near2[18] ^= 0x40;
+            out.push((near2, ghost(1)));
+        }
         0 => {
             out.push((far, ghost(0)));
             out.push((far, ghost(1)));
